@@ -29,3 +29,13 @@ mod timeout_coord;
 
 /// Ends of two independent channels (for example the input and output channels of an agent).
 type Io = (ByteWriter, ByteReader);
+
+/// Re-exports of crate-private items for the external verification harness (feature `verif`).
+#[cfg(feature = "verif")]
+pub mod verif_hooks {
+    pub mod timeout_coord {
+        pub use crate::timeout_coord::{
+            agent_timeout_coordinator, downlink_timeout_coordinator, Receiver, VoteResult, Voter,
+        };
+    }
+}
